@@ -10,6 +10,11 @@ CVC5 = "/usr/bin/cvc5"
 def smt_text(ob):
     s = z3.Solver()
     for a in ob.assumptions: s.add(a)
+    from . import types as _T
+    by = {}
+    for (n, py), c in _T._atom_consts.items(): by.setdefault(n, []).append(c)
+    for n, cs in by.items():
+        if len(cs) > 1: s.add(z3.Distinct(*cs))      # different Python strings are different atoms
     s.add(z3.Not(ob.goal))
     txt = s.to_smt2()
     txt = txt.replace("(check-sat)", "")
@@ -37,6 +42,7 @@ def _run(cmd, path, timeout):
     except subprocess.TimeoutExpired:
         return "timeout", "", time.time() - t0
     first = out.split("\n", 1)[0].strip() if out else ""
+    if first == "timeout": return "timeout", out[:200], time.time() - t0
     if first not in ("sat", "unsat", "unknown"):
         if "unsat" == first: pass
         return "error", (out + "\n" + p.stderr)[:2000], time.time() - t0
